@@ -37,9 +37,9 @@ fn pooled_rows() -> BoxedStrategy<Vec<RowSpec>> {
     let sq = prop_oneof![Just(None), Just(Some(1200u32)), Just(Some(7000u32)), Just(Some(7700u32)), Just(Some(21u32)), Just(Some(0u32))];
     let alt = prop_oneof![Just(None), Just(Some(0u32)), Just(Some(38000u32)), Just(Some(38025u32)), Just(Some(1000u32)), Just(Some(99975u32))];
     let vr = prop_oneof![Just(None), Just(Some(0i32)), Just(Some(-64i32)), Just(Some(64i32)), Just(Some(-3200i32)), Just(Some(2048i32))];
-    let lat = prop_oneof![Just(0.0f64), Just(52.3f64), Just(52.7f64), Just(-52.3f64), Just(-0.4f64), Just(0.4f64), Just(51.99999f64), Just(52.00001f64)];
+    let lat = prop_oneof![Just(0.0f64), Just(52.3f64), Just(52.7f64), Just(-52.3f64), Just(-0.4f64), Just(0.4f64), Just(51.99999f64), Just(52.00001f64), Just(52.300004f64), Just(52.300006f64)];
     let lon = prop_oneof![Just(0.0f64), Just(-8.3f64), Just(-8.7f64), Just(8.3f64), Just(-0.4f64), Just(0.4f64), Just(179.9f64), Just(-179.9f64)];
-    let dist = prop_oneof![Just(None), Just(Some(0.2f64)), Just(Some(0.7f64)), Just(Some(10.4f64)), Just(Some(10.6f64)), Just(Some(250.0f64))];
+    let dist = prop_oneof![Just(None), Just(Some(0.2f64)), Just(Some(0.7f64)), Just(Some(10.4f64)), Just(Some(10.6f64)), Just(Some(12.34f64)), Just(Some(12.36f64)), Just(Some(12.31f64)), Just(Some(250.0f64))];
     let cat = prop_oneof![1 => Just((0u32, 0u32)), 1 => Just((4u32, 3u32)), 1 => Just((4u32, 5u32)), 4 => (1u32..=4, 0u32..8)];
     let row = (rows::row_strategy(prop_oneof![3 => 1u32..40, 1 => 1u32..0xFFFFFF]), sq, alt, vr, lat, lon, dist, cat).prop_map(|(mut r, sq, alt, vr, lat, lon, dist, cat)| {
         r.squawk = sq;
